@@ -501,20 +501,37 @@ def check(rep):
         import eyecite.models as M2
         import eyecite.tokenizers as T2
 
-        us, other = T2.EDITIONS_LOOKUP["U.S."][0], T2.EDITIONS_LOOKUP["F.2d"][0]
-        a = M2.CitationToken("1 X 1", 0, 5, groups={"volume": "1", "reporter": "X", "page": "1"}, exact_editions=(us,))
-        b = M2.CitationToken("1 X 1", 0, 5, groups={"volume": "1", "reporter": "X", "page": "1"}, exact_editions=(other,), variation_editions=(us,))
-        a.merge(b)
-        if set(a.exact_editions) != {us, other} or set(a.variation_editions) != {us}:
-            rep.violation(f"CitationToken.merge loses candidate editions: exact {[e.short_name for e in a.exact_editions]}, variation {[e.short_name for e in a.variation_editions]} after merging (U.S.) with (F.2d | U.S.)", {"kind": "merge"})
-        else:
-            rep.inconc(f"merge model did not reproduce: {f['witness']}")
-        break
+        w = f["witness"]
+        lost = replay_merge(w)
+        if lost:
+            rep.violation(f"CitationToken.merge loses candidate editions: merging exact {w.get('a_exact')} / variation {w.get('a_var')} with exact {w.get('b_exact')} / variation {w.get('b_var')} leaves {lost}", {"kind": "merge", "witness": w})
+            break
+        rep.spurious += 1
+        rep.inconc(f"merge model did not reproduce: {w}")
     db_normalisation(rep)
     return rep.finish(
         explanation=f"Path-exhaustive symbolic execution of the real __hash__/__eq__/corrected_reporter/guess_edition/Resource source on {N} citation objects with symbolic identity attributes and poisoned context; per path: equivalence laws, ==/hash/Resource agreement, and 'equal iff same class, volume, page and normalised reporter, no placeholder' as z3 validity queries.",
         technique="symbolic execution of the Python source (AST interpreter) + z3 validity queries per path; pairs/triples of citations",
     )
+
+
+def replay_merge(w):
+    """rebuild the model's two tokens from the real database's editions and merge them; returns a description
+    of what is left when editions were lost, else None."""
+    import eyecite.models as M2
+    import eyecite.tokenizers as T2
+
+    nom = [e for v in T2.EDITIONS_LOOKUP.values() for e in v if e.reporter.short_name in T2.NOMINATIVE_REPORTER_NAMES][0]
+    us, other = T2.EDITIONS_LOOKUP["U.S."][0], T2.EDITIONS_LOOKUP["F.2d"][0]
+    twin = M2.Edition(M2.Reporter("Other Rep.", "Other reporter", "state", "reporters"), us.short_name, None, None)
+    byname = {"nominative": nom, "U.S.": us, "F.2d": other, "twin-of-U.S.(same short_name, other reporter)": twin}
+    tup = lambda k: tuple(byname[n] for n in w.get(k, []))
+    a = M2.CitationToken("1 X 1", 0, 5, groups={"volume": "1", "reporter": "X", "page": "1"}, exact_editions=tup("a_exact"), variation_editions=tup("a_var"))
+    b = M2.CitationToken("1 X 1", 0, 5, groups={"volume": "1", "reporter": "X", "page": "1"}, exact_editions=tup("b_exact"), variation_editions=tup("b_var"))
+    a.merge(b)
+    if set(a.exact_editions) != set(tup("a_exact")) | set(tup("b_exact")) or set(a.variation_editions) != set(tup("a_var")) | set(tup("b_var")):
+        return f"exact {[e.short_name for e in a.exact_editions]}, variation {[e.short_name for e in a.variation_editions]}"
+    return None
 
 
 def replay_file(path):
@@ -525,6 +542,10 @@ def replay_file(path):
         bad = concrete_history(r["witness"])
         print(bad)
         return 1 if bad else 0
+    if r["kind"] == "merge":
+        lost = replay_merge(r["witness"])
+        print(lost)
+        return 1 if lost else 0
     if r["kind"] == "post":
         bad = replay_post(r["witness"])
         print(bad)
